@@ -183,6 +183,23 @@ pub fn stress_sources() -> Vec<(String, String)> {
         "cyclic-print-object-parent".into(),
         "let box = array(1, null);\nlet o = object extends box begin let v = 1; let self = null; end;\no.self <- o;\nprint(\"start;\");\nprint(\"[~|~|~]\", o.v, 2, o);\nprint(\"unreached?\");\n".into(),
     ));
+    // a global function and a member method with identical text; the same name as function, method,
+    // field, variable and parameter
+    v.push((
+        "same-text-function-and-method".into(),
+        "function area(w, h) -> w * h;\nlet o = object begin function area(w, h) -> w * h; function twice(x) -> x + x; end;\nfunction twice(x) -> x + x;\nprint(\"~ ~ ~ ~\\n\", area(2, 3), o.area(4, 5), o.twice(6), twice(7));\nlet p = object begin function twice(x) -> x + x; function area(w, h) -> w * h; end;\nprint(\"~ ~\\n\", p.twice(1), p.area(1, 1));\nfunction same(same) -> same;\nlet same = object begin let same = 3; function same(same) -> same; end;\nprint(\"~ ~ ~\\n\", same(1), same.same, same.same(2));\n".into(),
+    ));
+    // initializers that are never run (size 0) may not fail or have effects; per-element evaluation of
+    // operator expressions over variables
+    v.push((
+        "array-initializer-multiplicity".into(),
+        "let z = 0;\nprint(\"~ ~ ~ ~\\n\", array(0, 1 / z), array(0, undefined_name + 1), array(0, begin print(\"never\"); 1 end), array(z, z / z));\nlet made = 0;\nlet v = object begin let n = 1; function +(o) -> begin made <- made + 1; object begin let sum = this.n + o; end end; end;\nlet three = array(3, v + made);\nthree[0].sum <- 100;\nprint(\"~ ~\\n\", three, made);\nlet k = 1;\nlet w = 2;\nprint(\"~ ~ ~\\n\", array(2, k + w), array(2, k * w - k), array(2, k == w));\n".into(),
+    ));
+    // the same object literal instantiated on parent chains of different shapes
+    v.push((
+        "one-literal-many-chains".into(),
+        "function wrap(p) -> object extends p begin let w = 1; end;\nlet a = object begin function m() -> 1; function who() -> 10; end;\nlet b = object extends a begin function m() -> 2; end;\nlet deep = wrap(wrap(wrap(a)));\nprint(\"~ ~\\n\", deep.m(), deep.who());\nlet near = wrap(b);\nprint(\"~ ~\\n\", near.m(), near.who());\nlet nearer = wrap(object extends deep begin function m() -> 3; end);\nprint(\"~ ~ ~\\n\", nearer.m(), wrap(5) + 1, wrap(array(1, 7))[0]);\nprint(\"~ ~\\n\", deep.m(), near.m());\n".into(),
+    ));
     // several zero-length arrays and empty objects
     v.push(("empty-allocations".into(), "let k = 0; while k < 3 do begin array(0, k); array(0, begin k end); object begin end; k <- k + 1 end;\nprint(\"~ ~ ~\\n\", array(0, 1), array(0, begin 2 end), object begin end);\n".into()));
     // user-defined methods that carry the Feeny names of built-ins
